@@ -174,8 +174,9 @@ static int mps_skip_comment (
 	{
 		state->p++;
 	}
-	rval = ((*state->p == '$') && (state->field_num >= 2) &&
-					(state->field_num % 2 == 0));
+	/* a '$' opens a comment in field 3, 5, ... of the format; data lines of the COLUMNS, RHS and
+	 * RANGES sections start in field 2, BOUNDS lines in field 1, so both parities occur */
+	rval = ((*state->p == '$') && (state->field_num >= 2));
 	return rval;
 }
 
